@@ -1,0 +1,19 @@
+//go:build verif
+// +build verif
+
+// Lets the verification harness under /verif put its own Store
+// implementation (in-memory, fault-injecting) behind a store URL, so that
+// dispatchers created through the normal constructors pick it up.
+// Compiled only with `-tags verif`; nothing here changes behaviour.
+
+package store
+
+// VerifRegister makes NewStore(url) return s.
+func VerifRegister(url string, s Store) {
+	stores.Store(url, s)
+}
+
+// VerifUnregister removes a store registered with VerifRegister.
+func VerifUnregister(url string) {
+	stores.Delete(url)
+}
